@@ -267,6 +267,7 @@ class FuncTr:
         self.cname = cname
         self.env = dict(env)
         self.selffields = None   # for __iadd__-style in-place updates: field -> local var
+        self.alias_names = set() # parameters that denote the SAME object as self (the `s += s` reading of an in-place method)
 
     # ------------------------------------------------------------ static evaluation
     def static(self, e):
@@ -381,6 +382,9 @@ class FuncTr:
             return ("str", self.w.classes[e.value.id].str_consts[e.attr]), "S"
         if isinstance(e, ast.Attribute):
             # self._const
+            if isinstance(e.value, ast.Name) and e.value.id in self.alias_names \
+                    and self.selffields is not None and e.attr in self.selffields:
+                return ("var", self.selffields[e.attr]), "Q"       # aliased operand: reads see earlier writes
             if isinstance(e.value, ast.Name) and e.value.id == "self":
                 if self.selffields is not None and e.attr in self.selffields:
                     return ("var", self.selffields[e.attr]), "Q"
@@ -705,22 +709,29 @@ class FuncTr:
 
 # in-place (`self.f op= e`) methods: pre-bind every field to a local so that later reads
 # see earlier writes (Python's sequential semantics)
-def translate_inplace(tr: Translator, cname, mname):
-    """`__iadd__`-style method: returns self after a sequence of field updates."""
-    key = (cname, mname, ())
+def translate_inplace(tr: Translator, cname, mname, alias=False):
+    """`__iadd__`-style method: returns self after a sequence of field updates.
+    alias=True translates the call `x.m(x)` (every same-class operand IS self: `s += s`), emitted as <name>_self."""
+    key = (cname, mname, ("alias",) if alias else ())
     if key in tr.done:
         return tr.done[key]
     owner, fn = tr.w.find_method(cname, mname)
     tr.need_record(cname)
-    coqname = "%s_%s" % (cname, mname.strip("_"))
+    coqname = "%s_%s" % (cname, mname.strip("_")) + ("_self" if alias else "")
     env = {"self": (("var", "self"), ("rec", cname))}
     params = [("self", ("rec", cname))]
+    aliases = set()
     for a in fn.args.args[1:]:
         ann = ast.unparse(a.annotation) if a.annotation is not None else None
         t = ("rec", ann) if ann in tr.w.classes else "Q"
+        if alias and t == ("rec", cname):
+            env[a.arg] = (("var", "self"), t)
+            aliases.add(a.arg)
+            continue
         env[a.arg] = (("var", a.arg), t)
         params.append((a.arg, t))
     fx = FuncTr(tr, cname, env)
+    fx.alias_names = aliases
     fx.selffields = {}
     pro = []
     for (f, ann, _d) in tr.w.all_fields(cname):
